@@ -109,6 +109,7 @@ type gCfg struct {
 	storeAll bool // every storable occurrence is stored (no symbolic bit)
 	idDV     bool // the _id field is indexed with doc values (symbolic per batch)
 	fixAP    bool // every location / stored value has exactly maxAP array positions
+	allWide  bool // no narrow-number assumption at all (corpus batches pin every number)
 	noFx     bool // freq of hits with locations is exactly the number of locations
 }
 
@@ -122,6 +123,11 @@ const vNarrow = 60 // narrow numbers: (x<<1|1) still fits one varint byte
 // num returns a symbolic number: narrow, or bounded only by limit if it is the designated wide one.
 func (g *gen) num(name string, limit uint64) uint64 {
 	v := vU64(g.cfg.prefix + name)
+	if g.cfg.allWide {
+		vAssume(v < limit)
+		g.k++
+		return v
+	}
 	if g.k == g.cfg.wide {
 		vAssume(v < limit)
 	} else {
